@@ -49,6 +49,8 @@ pub uninterp spec fn iter_order(m: Map<Seq<u8>, Value>) -> Seq<(Str, Value)>;
 impl OverrideMap {
     pub uninterp spec fn view(&self) -> Map<Seq<u8>, Value>;
     #[verifier::external_body] pub fn insert(&mut self, k: Str, v: Value) -> (r: Option<Value>) ensures final(self)@ == old(self)@.insert(k@, v) { unimplemented!() }
+    #[verifier::external_body] pub fn entry_or_insert(&mut self, k: Str, v: Value)
+        ensures final(self)@ == (if old(self)@.contains_key(k@) { old(self)@ } else { old(self)@.insert(k@, v) }) { unimplemented!() }
     // E11: HashMap::iter() consumed by a `for`: the Vec of its entries (each key once, order unspecified)
     #[verifier::external_body] pub fn iter(&self) -> (r: Vec<(Str, Value)>) ensures r@ == iter_order(self@), entries_of(r@, self@) { unimplemented!() }
 }
@@ -169,8 +171,8 @@ def str_edits(p):
     p.sub("E3s", r"(\w+): &str\b", r"\1: &Str", count=None, why="&str -> &Str (byte-sequence string model)")
     p.sub("E3s", r'\.starts_with\(("[^"]*")\)', r".starts_with_lit(\1)", count=None, why="str::starts_with(literal)")
     p.sub("E3s", r'\.replace\(("[^"]*"), ("[^"]*")\)', r".replace_lit(\1, \2)", count=None, why="str::replace(literal, literal)")
-    p.sub("E3s", r'\.starts_with\(&(\w+)\)', r".starts_with(\1)", count=None, why="str::starts_with(&String): reference to the Copy model value dropped")
-    p.sub("E3s", r'\.replace\(&(\w+), ("[^"]*")\)', r".replace(\1, \2)", count=None, why="str::replace(&String, literal)")
+    p.sub("E3s", r"\.split_once\('([^'\\])'\)", r'.split_once_lit("\1")', count=None, why="str::split_once(char) -> split_once on the one-character literal")
+    p.sub("E3", r"\.entry\(((?:[^()]|\([^()]*\))*)\)\s*\.or_insert\(((?:[^()]|\([^()]*\))*)\)", r".entry_or_insert(\1, \2)", count=None, why="HashMap::entry(k).or_insert(v): insert only if the key is absent (std)")
     p.sub("E3s", r'format!\("\{\}([^"{}]+)", (\w+)\)', r'Str::concat2(*\2, Str::lit("\1"))', count=None, why="format!(\"{}<text>\", s) -> s followed by the literal text")
     p.sub("E3s", r'\.split_once\(("[^"]*")\)', r".split_once_lit(\1)", count=None, why="str::split_once(literal)")
 
@@ -206,11 +208,11 @@ def build(tier):
     p.expect_loops(1)
     str_edits(p)
     p.contract(GET_OVERRIDDEN_C.replace("@CANARY@", CANARY), ret_name="r")
+    p.sub("E4", r"\A(\s*)pub fn get_overridden", r"\1#[verifier::loop_isolation(false)]\n\1pub fn get_overridden", count=1,
+          why="loop body may use facts established before the loop (the invariant then speaks about the abstraction only, not about the local holding the prefix)")
     p.loop_spec(0, """            invariant
                 it.seq() == iter_order(self.language_overrides@),
-                m@ == target_language@ + lit("."),
-                overrides_ok(it.seq(), m@),
-                out.shared_config == apply_overrides(self.shared_config, it.seq(), m@, it.index@ as int),
+                out.shared_config == apply_overrides(self.shared_config, it.seq(), target_language@ + lit("."), it.index@ as int),
                 out.kotlin_config == self.kotlin_config, out.demo_gen_config == self.demo_gen_config, out.js_config == self.js_config,
                 out.language_overrides@ == self.language_overrides@,""", iter_name="it")
     vf.add_piece(p, expected="get_overridden")
@@ -220,7 +222,6 @@ def build(tier):
     p.expect_loops(1)
     str_edits(p)
     p.sub("E3s", r"settings: Vec<String>", "settings: Vec<Str>", count=1, why="String -> Str")
-    p.sub("E3s", r"self\.set\(key, toml_value_from_str\(value\)\)", "self.set(&key, toml_value_from_str(&value))", count=1, why="the model's split_once yields values, Config::set takes a reference")
     p.sub("E6", r"eprintln!\((?:[^()]|\([^()]*\))*\);", "", count=None, why="diagnostic output dropped")
     p.contract(READ_CLI_C.replace("@CANARY@", CANARY))
     p.loop_spec(0, """            invariant
